@@ -33,15 +33,20 @@ FILE_NAMES = ["x.sm", "x.ssc", "x.SM", "x.SsC", "x.txt", "x.sm.bak", ".sm", "noe
 
 
 def anchors():
-    import simfile
-    from simfile.base import BaseSimfile
-    from simfile.sm import SMChart, SMSimfile
-    from simfile.ssc import SSCChart, SSCSimfile
+    from ..core import pick
 
-    return {"_detect_ssc": simfile._detect_ssc, "load": simfile.load, "loads": simfile.loads, "open": simfile.open,
-            "open_with_detected_encoding": simfile.open_with_detected_encoding, "BaseSimfile.__init__": BaseSimfile.__init__,
-            "SMSimfile._parse": SMSimfile._parse, "SMChart._from_msd": SMChart._from_msd,
-            "SSCSimfile._parse": SSCSimfile._parse, "SSCChart._parse": SSCChart._parse}
+    return pick(
+        "simfile:_detect_ssc",
+        "simfile:load",
+        "simfile:loads",
+        "simfile:open",
+        "simfile:open_with_detected_encoding",
+        "simfile.base:BaseSimfile.__init__",
+        "simfile.sm:SMSimfile._parse",
+        "simfile.sm:SMChart._from_msd",
+        "simfile.ssc:SSCSimfile._parse",
+        "simfile.ssc:SSCChart._parse",
+    )
 
 
 def corpus_texts():
